@@ -10,7 +10,7 @@ Inductive txclass := CSyntax | CSemantic | CPlain | CRegistration.
 (* Which check fired (compared with the implementation through its message). *)
 Inductive why :=
   WParse | WParam | WWsParam | WSplit | WRegex | WEscape | WOptMods | WAsgMods
-| WMultiBool | WPrimRef | WBoolRep | WRuleRef | WClsRef | WRegistration.
+| WMultiBool | WPrimRef | WBoolRep | WBoolMany | WRuleRef | WClsRef | WRegistration.
 
 Inductive outcome := Ok | TxErr (c : txclass) (w : why) | Crash (k : crash).
 
@@ -31,6 +31,10 @@ Record cfg := {
   c_ugroup_guard : bool;             (* visit_repeatable_expr: `#` on a RuleCrossRef does not read expr.nodes *)
   c_alias_guard : option txclass;    (* _resolve_rule: Some c: a rule found in its own alias chain raises c *)
   c_mmm_getitem : bool;              (* TextXMetaMetaModel defines __getitem__ *)
+  c_contains_catches : bool;         (* TextXMetaModel.__contains__ = try self[name] except KeyError *)
+  c_ruletype_by_class : bool;        (* _determine_rule_type takes the class of an alias target from rule._tx_class
+                                        (false: looks its rule_name up in the meta-model, outside any try) *)
+  c_boolmany_check : option txclass; (* visit_textx_rule: a `?=` attribute with multiplicity many raises this *)
   c_base_names : list (list N)       (* classes of the __base__ namespace *)
 }.
 
@@ -42,7 +46,8 @@ Definition is_some {A} (o : option A) : bool := match o with Some _ => true | No
 Definition cfg_safe (c : cfg) : bool :=
   is_some (c_ws_guard c) && handler_ok (c_re_handler c) && handler_ok (c_str_handler c)
   && handler_ok (c_nomatch_handler c) && handler_ok (c_keyerror_handler c)
-  && c_ugroup_guard c && is_some (c_alias_guard c) && c_mmm_getitem c.
+  && c_ugroup_guard c && is_some (c_alias_guard c) && c_mmm_getitem c
+  && c_contains_catches c && c_ruletype_by_class c.
 
 (* The code as pinned before the C23 repairs (used by the refutation witnesses). *)
 Definition pinned_cfg : cfg := {|
@@ -53,6 +58,7 @@ Definition pinned_cfg : cfg := {|
   c_nomatch_handler := {| h_catches := true; h_body_safe := true; h_raises := CSyntax |};
   c_keyerror_handler := {| h_catches := true; h_body_safe := true; h_raises := CSemantic |};
   c_ugroup_guard := false; c_alias_guard := None; c_mmm_getitem := false;
+  c_contains_catches := true; c_ruletype_by_class := false; c_boolmany_check := None;
   c_base_names := [[73;68]; [83;84;82;73;78;71]; [66;79;79;76]; [73;78;84]; [70;76;79;65;84];
                    [83;84;82;73;67;84;70;76;79;65;84]; [78;85;77;66;69;82]; [66;65;83;69;84;89;80;69];
                    [79;66;74;69;67;84]]%N |}.
